@@ -137,7 +137,8 @@ impl Callable for Index {
                 .ok_or_else(|| err_msg("NativeObject does not implement Indexible"))?,
             _ => bail!("type mismatch"),
         };
-        obj.get(index)?.value_of(ctx)
+        // array member types are inferred with real_type_of
+        obj.get(index)?.real_value_of(ctx)
     }
 }
 
